@@ -169,8 +169,7 @@ class WorldA:
         evs.append(("A", "a", self.methods[0], self.degrees[0], True, "size"))
         for sl in ("a", "b", "s", "g", "m"):
             if sl in self.slots:
-                if sl not in ("g", "m"):
-                    evs.append(("EditP", sl))
+                evs.append(("EditP", sl))
                 evs.append(("EditW", sl))
         for mth in self.methods:
             for rot in (0, 7):
@@ -209,9 +208,14 @@ class WorldA:
                 if len(g.points) != len(shipped(mth, dg)[0]):
                     self._bad(f"A:ctor:{mth}:wrong-grid", f"{ev} built a grid of {len(g.points)} points")
             elif kind == "EditP":
-                arr = self.slots[ev[1]].points
+                obj = self.slots[ev[1]]
+                arr = obj.points
                 arr *= 2.0
-                self.model[ev[1]]["editP"] = True
+                # an atomic grid computes its points (centre + stored offsets) on every access: the array handed out is the
+                # caller's own and editing it must leave the grid alone (seeded change C05-K); all other classes hand out
+                # the array they hold, so the edit is an edit of that object
+                if ev[1] != "g":
+                    self.model[ev[1]]["editP"] = True
                 obs = _h(arr)
             elif kind == "EditW":
                 arr = self.slots[ev[1]].weights
